@@ -139,6 +139,40 @@ func ruleAZScope(p *Prog, r *Reporter) {
 			"block-derived data flows into this iteration's private clone only",
 			"data derived from a non-authority block is passed to World."+m+" on "+shortD(cc.Args[0])+", which is not the private per-block clone: the block can influence authority-level checks, policies, queries or other blocks")
 	}
+	// block-derived data handed to a callee that writes authorizer state (other than interning into the symbol table)
+	own := p.own()
+	for _, cl := range callsIn(c.fn) {
+		cc := cl.Common()
+		if _, isB := cc.Value.(*ssa.Builtin); isB {
+			continue
+		}
+		if _, isW := isWorldMethod(cc); isW {
+			continue
+		}
+		args := callArgs(cc)
+		anyTaint := false
+		for _, a := range args {
+			if c.tainted(a) {
+				anyTaint = true
+			}
+		}
+		if !anyTaint {
+			continue
+		}
+		for _, callee := range p.CG().Callees(cl) {
+			for ai, a := range args {
+				why, mut := own.mutates[callee][ai]
+				if !mut {
+					continue
+				}
+				ao := own.origin(a)
+				if ao.root != ssa.Value(c.recv) || isRepoNamed(a.Type(), "datalog", "SymbolTable") {
+					continue
+				}
+				r.Bad(p.instrPos(cl), name, "block data -> "+calleeName(callee), "data derived from a non-authority block is passed to "+calleeName(callee)+", which writes authorizer state ("+why+"): block content can persist beyond the block's private world")
+			}
+		}
+	}
 	// stores into the authorizer
 	for _, fs := range fieldStoresVia(c.fn, c.recv) {
 		if !c.tainted(fs.st.Val) {
@@ -190,6 +224,9 @@ func ruleAZResetRules(p *Prog, r *Reporter) {
 	}
 	var reset ssa.CallInstruction
 	for _, cl := range callsIn(c.fn) {
+		if _, immediate := cl.(*ssa.Call); !immediate {
+			continue // defer/go: does not execute here
+		}
 		if isCallTo(cl.Common(), "datalog.World.ResetRules") && p.D(cl.Common().Args[0]) == c.V+".world" {
 			if cl.Block().Dominates(c.blocks.header) && !c.blocks.body[cl.Block()] {
 				reset = cl
